@@ -71,13 +71,13 @@ TrSupprQuery ==
 
 TrSupprAdd ==
   /\ Ev("SupprAdd") /\ U
-  /\ E.from # "" => RecvSupprOK(E.from, E.key, E.checked, E.matched)
-  /\ SupprAdd(E.a, E.key, E.rec, E.res)
+  /\ IF E.from # "" THEN E.a = "main" /\ ParentSupprAdd(E.from, E.key, E.rec, E.res)
+     ELSE SupprAdd(E.a, E.key, E.rec, E.res)
 
 TrSupprUpdate ==
   /\ Ev("SupprUpdate") /\ U
-  /\ E.from # "" => RecvSupprOK(E.from, E.key, E.checked, E.matched)
-  /\ SupprUpdate(E.a, E.key, E.checked, E.matched, E.found)
+  /\ IF E.from # "" THEN E.a = "main" /\ ParentSupprUpdate(E.from, E.key, E.checked, E.matched, E.found)
+     ELSE SupprUpdate(E.a, E.key, E.checked, E.matched, E.found)
 
 ToSet(s) == {s[i] : i \in DOMAIN s}
 
@@ -115,6 +115,7 @@ TraceNext ==
   \/ Ev("ExecQuery") /\ U /\ ExecDone(W, E.x, E.res)
   \/ TrEmit
   \/ Ev("SendErr") /\ U /\ SendErr(W, E.x)
+  \/ Ev("SendSuppr") /\ U /\ SendSuppr(W, E.key, E.inl, E.checked, E.matched)
   \/ TrSent
   \/ Ev("ChildChecked") /\ U /\ ChildChecked(W, E.result)
   \/ Ev("ChildExit") /\ U /\ Stutter
